@@ -138,6 +138,24 @@ func VerifyFunction(prog *ssa.Program, db *ContractDB, fn *ssa.Function, fc *Fun
 	for _, r := range fc.Requires {
 		st.assume(fv.safeEvalBool(env, r.E, "requires"))
 	}
+	if isPkgInit(fn) {
+		// the Go runtime runs a package initialiser exactly once (assumed): its guard is unset
+		if g, ok := fn.Pkg.Members["init$guard"].(*ssa.Global); ok {
+			gv := st.get(g)
+			if gv.Place != nil {
+				st.store(gv.Place, boolVal(FalseT))
+			}
+			enc.assumedUsed["the Go runtime runs a package initialiser exactly once (init$guard is unset on entry)"] = true
+		}
+	}
+	// package invariants over initialise-once globals: assumed at the entry of every function of
+	// the package except the initialiser and its closures (ginv.go)
+	if fn.Pkg != nil && !isPkgInit(fn) && !isInitClosure(fn) {
+		for _, gi := range ginvsFor(db, fn.Pkg.Pkg.Path()) {
+			st.assume(fv.safeEvalBool(env, gi.E, "package invariant"))
+			enc.assumedUsed["package invariant "+gi.Src+" over "+strings.Join(gi.Globals, ", ")+": established by the package initialiser (obligation of init) and preserved because these variables are written only there and never handed out (ssa-scan obligations)"] = true
+		}
+	}
 	ob := fv.addOb(st, "cover", "cover:pre", TrueT, "precondition satisfiable", token.NoPos)
 	ob.Cover = true
 	fv.pre = st.clone()
